@@ -13,6 +13,7 @@ import (
 	"regexp"
 	"runtime"
 	"sort"
+	"strconv"
 	"strings"
 	"time"
 
@@ -25,6 +26,7 @@ type Case struct {
 	Kind   string `json:"kind"`          // valid | mutant | bytes | nest
 	API    string `json:"api"`           // run | eval | feval | function | parse | ceval
 	Strict bool   `json:"strict"`        //
+	NoV    bool   `json:"nov,omitempty"` // search-only case: code bodies are not sent to the verifier (oracle bits only)
 	Src    string `json:"src,omitempty"` // source text (valid UTF-8)
 	B64    string `json:"b64,omitempty"` // source bytes when not valid UTF-8
 }
@@ -105,6 +107,10 @@ func groupBodies(dump []goja.VerifInstr, topMode int) ([]*bodyT, map[string]*bod
 // coqBody renders one body as arguments of the B constructor: mode, code, edges.
 // Fall-through / jump edges are deduplicated per (kind, operands, pc distance, delta): the table is about
 // instruction kinds; every other edge (exception edges, returns from finally) is kept.
+// bodies already sent to the verifier by this process (hash of mode+code) and the edges sent with them:
+// the prelude functions and other repeated bodies are verified once per process, not once per program
+var sentBodies = map[string]map[[3]int]bool{}
+
 func coqBody(b *bodyT, unknown map[string]bool) string {
 	var sb strings.Builder
 	fmt.Fprintf(&sb, "%d (", b.mode)
@@ -135,10 +141,21 @@ func coqBody(b *bodyT, unknown map[string]bool) string {
 	}
 	sb.WriteString("CEnd")
 	sb.WriteString(strings.Repeat(")", len(b.ins)+1))
+	codeKey := sb.String()
+	sent, dup := sentBodies[codeKey]
+	if !dup {
+		sent = map[[3]int]bool{}
+		sentBodies[codeKey] = sent
+	}
 	var es [][3]int
 	seenClass := map[string]bool{}
 	for e := range b.edges {
-		es = append(es, e)
+		if !sent[e] {
+			es = append(es, e)
+		}
+	}
+	if dup && len(es) == 0 {
+		return ""
 	}
 	sort.Slice(es, func(i, j int) bool {
 		for k := 0; k < 3; k++ {
@@ -151,6 +168,7 @@ func coqBody(b *bodyT, unknown map[string]bool) string {
 	sb.WriteString(" (")
 	n := 0
 	for _, e := range es {
+		sent[e] = true
 		if e[0] < len(b.ins) {
 			in := b.ins[e[0]]
 			v, hasV := in.Ops["v"]
@@ -309,7 +327,9 @@ type result struct {
 	ninstr  int
 }
 
-func (res *result) note(format string, a ...interface{}) { res.obs = append(res.obs, fmt.Sprintf(format, a...)) }
+func (res *result) note(format string, a ...interface{}) {
+	res.obs = append(res.obs, fmt.Sprintf(format, a...))
+}
 
 // runProgram: dump, instrument, run, trace.
 func (res *result) runProgram(p *goja.Program, topMode int, run bool, checkBUG bool) {
@@ -467,10 +487,20 @@ func execCase(c Case) vh.Record {
 	// Gallina term
 	var tb strings.Builder
 	tb.WriteString("mkCase (")
+	nb, ndup := 0, 0
 	for _, b := range res.bodies {
-		tb.WriteString("B " + coqBody(b, res.unknown) + " (")
+		if c.NoV {
+			break
+		}
+		t := coqBody(b, res.unknown)
+		if t == "" {
+			ndup++
+			continue
+		}
+		tb.WriteString("B " + t + " (")
+		nb++
 	}
-	tb.WriteString("BNil" + strings.Repeat(")", len(res.bodies)+1))
+	tb.WriteString("BNil" + strings.Repeat(")", nb+1))
 	fmt.Fprintf(&tb, " %d", res.crash)
 	term := tb.String()
 	for k := range res.unknown {
@@ -489,7 +519,11 @@ func execCase(c Case) vh.Record {
 			}
 		}
 	}
-	res.tags = append(res.tags, fmt.Sprintf("bodies:%d", minInt(len(res.bodies), 9)))
+	if c.NoV {
+		res.tags = append(res.tags, "bodies:not-sent")
+	} else {
+		res.tags = append(res.tags, fmt.Sprintf("bodies:%d", minInt(nb, 9)), fmt.Sprintf("bodies-dup:%d", minInt(ndup, 9)))
+	}
 	obs := fmt.Sprintf("crash=%d bodies=%d instrs=%d %s", res.crash, len(res.bodies), res.ninstr, strings.Join(res.obs, " | "))
 	if len(obs) > 1500 {
 		obs = obs[:1500]
@@ -630,37 +664,55 @@ func validUTF8NoCtl(s string) bool {
 	return json.Unmarshal(b, &back) == nil && back == s
 }
 
-func genCase(r *vh.Rng) Case {
-	strict := r.Chance(35)
-	switch r.Pick(40, 6, 24, 10, 6, 14) {
-	case 0:
-		return mkCase("valid", "run", strict, genProgram(r, strict))
-	case 1:
-		g := &gctx{r: r, strict: strict, budget: 40}
-		var sb strings.Builder
-		for i, n := 0, 1+r.Intn(3); i < n; i++ {
-			sb.WriteString(g.stmt(3) + "\n")
-		}
-		return mkCase("valid", "ceval", strict, sb.String())
-	case 2:
-		src := mutate(r, genProgram(r, strict))
-		return mkCase("mutant", []string{"run", "run", "run", "eval", "feval", "function", "parse"}[r.Intn(7)], strict, src)
-	case 3:
-		return mkCase("bytes", []string{"run", "run", "eval", "function", "parse", "feval"}[r.Intn(6)], strict, string(genBytes(r)))
-	case 4:
-		return mkCase("nest", []string{"run", "eval", "function", "parse"}[r.Intn(4)], strict, genNest(r))
-	default:
-		g := &gctx{r: r, strict: strict, budget: 50}
-		var sb strings.Builder
-		for i, n := 0, 1+r.Intn(3); i < n; i++ {
-			sb.WriteString(g.stmt(3) + "\n")
-		}
-		src := sb.String()
+// fragment returns 1..3 generated statements (no prelude), with the crash-class shapes over-represented.
+func fragment(r *vh.Rng, strict bool, budget int) string {
+	g := &gctx{r: r, strict: strict, budget: budget}
+	var sb strings.Builder
+	for i, n := 0, 1+r.Intn(3); i < n; i++ {
 		if r.Chance(40) {
+			sb.WriteString(g.special(3) + "\n")
+		} else {
+			sb.WriteString(g.stmt(3) + "\n")
+		}
+	}
+	return sb.String()
+}
+
+// genCase: vp = per-mille of cases whose code bodies go to the verifier (they cost Coq parsing time);
+// everything else is the crash search (oracle bits only).
+func genCase(r *vh.Rng, vp int) Case {
+	strict := r.Chance(35)
+	if r.Intn(1000) < vp {
+		if r.Chance(12) {
+			return mkCase("valid", "ceval", strict, fragment(r, strict, 40))
+		}
+		return mkCase("valid", "run", strict, genProgram(r, strict))
+	}
+	var c Case
+	switch r.Pick(18, 12, 26, 12, 6, 26) {
+	case 0:
+		c = mkCase("valid", "run", strict, genProgram(r, strict))
+	case 1:
+		c = mkCase("valid", "run", strict, prelude+fragment(r, strict, 50))
+	case 2:
+		src := genProgram(r, strict)
+		if r.Chance(50) {
+			src = prelude + fragment(r, strict, 50)
+		}
+		c = mkCase("mutant", []string{"run", "run", "run", "eval", "feval", "function", "parse"}[r.Intn(7)], strict, mutate(r, src))
+	case 3:
+		c = mkCase("bytes", []string{"run", "run", "eval", "function", "parse", "feval"}[r.Intn(6)], strict, string(genBytes(r)))
+	case 4:
+		c = mkCase("nest", []string{"run", "eval", "function", "parse"}[r.Intn(4)], strict, genNest(r))
+	default:
+		src := fragment(r, strict, 50)
+		if r.Chance(35) {
 			src = mutate(r, src)
 		}
-		return mkCase("valid", []string{"eval", "feval", "function"}[r.Intn(3)], strict, src)
+		c = mkCase("valid", []string{"eval", "feval", "function"}[r.Intn(3)], strict, src)
 	}
+	c.NoV = true
+	return c
 }
 
 func main() {
@@ -669,8 +721,12 @@ func main() {
 	case "gen":
 		w := vh.NewWriter(m.Out)
 		r := vh.NewRng(m.Seed)
+		vp := 80
+		if x, err := strconv.Atoi(m.Args["vp"]); err == nil {
+			vp = x
+		}
 		for i := 0; i < m.N; i++ {
-			c := genCase(r)
+			c := genCase(r, vp)
 			cj := vh.MustJSON(c)
 			vh.Guard(w, cj, failTerm, 20, func() vh.Record { return execCase(c) })
 		}
@@ -690,7 +746,7 @@ func main() {
 	case "src":
 		r := vh.NewRng(m.Seed)
 		for i := 0; i < m.N; i++ {
-			c := genCase(r)
+			c := genCase(r, 80)
 			fmt.Printf("// ---- %s %s strict=%v\n%s\n", c.Kind, c.API, c.Strict, c.source())
 		}
 	default:
